@@ -289,6 +289,80 @@ def verify2 [DecidableEq H] (A : HashAlg H) (cfg : Cfg) (root : H) (key : Path) 
     Res H :=
   if cfg.zeroRoot && root = A.zero then .ok A.zero else verify2Aux A cfg proof verifyFuel root key
 
+/-! ### trie2 range proofs: the single-element and the empty-range case -/
+
+/-- Variant of `trie2.VerifyRangeProof`'s path resolution the harness is looking at.
+`checkHash`: `retrieveNode` recomputes the hash of the node it fetched (repaired); the code as it is
+takes whatever sits under the hash.  `earlyValue`: a child of Go type `ValueNode` ends `proofToPath`
+with that felt as the value wherever it is (as is).  `leafHash`: a child of Go type `HashNode` reached
+when the key is consumed is the leaf value (repaired, as `VerifyProof` does); the code as it is
+looks its felt up as a node hash and walks on with an empty key. -/
+structure RCfg where
+  checkHash : Bool
+  earlyValue : Bool
+  leafHash : Bool
+  deriving Repr, DecidableEq
+
+def RCfg.asIs : RCfg := ⟨false, true, false⟩
+def RCfg.strict : RCfg := ⟨true, false, true⟩
+
+/-- `proofToPath(rootHash, nil, key, proof, allowNonExistent)` on a fresh root: the nodes resolved
+along the key, root first, each with the key that remained when it was entered, and the value
+found (`none` = the walk ended at a nil child / a mismatching edge). Result `none` = error. -/
+def resolveAux [DecidableEq H] (A : HashAlg H) (rc : RCfg) (P : PSet H) (allowNonExistent : Bool) :
+    Nat → H → Path → Option (List (PNode H × Path) × Option H)
+  | 0, _, _ => none
+  | fuel + 1, expected, key =>
+    match P.get expected with
+    | none => none
+    | some node =>
+      if rc.checkHash && node.hash A ≠ expected then none else
+      match step2 node key with
+      | (none, _) => if allowNonExistent then some ([(node, key)], none) else none
+      | (some c, key') =>
+        match c.tag with
+        | .nil => if allowNonExistent then some ([(node, key)], none) else none
+        | .value => if rc.earlyValue || key'.length = 0 then some ([(node, key)], some c.h) else none
+        | .hash =>
+          if rc.leafHash && key'.length = 0 then some ([(node, key)], some c.h) else
+          match resolveAux A rc P allowNonExistent fuel c.h key' with
+          | none => none
+          | some (rest, v) => some ((node, key) :: rest, v)
+
+/-- `BitArray.Cmp(a, b) > 0`: by length first, then by value. -/
+def cmpGt (a b : Path) : Bool :=
+  if a.length ≠ b.length then decide (a.length > b.length) else decide (pathVal a > pathVal b)
+
+/-- `hasRightElement(root, key)` on the resolved path. -/
+def hasRight : List (PNode H × Path) → Bool
+  | [] => false
+  | (.bin _ r _, key) :: rest => if key.headD false = false && r.tag ≠ Tag.nil then true else hasRight rest
+  | (.edge p _ _, key) :: rest =>
+    if !pathCompat p key then
+      cmpGt (if key.length > p.length then p ++ List.replicate (key.length - p.length) false else p) key
+    else hasRight rest
+
+inductive RRes where
+  | ok (more : Bool)
+  | err
+  deriving Repr, DecidableEq
+
+/-- `VerifyRangeProof(root, key, [key], [value], proof)` — `verifySingleElementProof`. -/
+def verifySingle [DecidableEq H] (A : HashAlg H) (rc : RCfg) (root : H) (key : Path) (value : H) (P : PSet H) : RRes :=
+  if value = A.zero then .err else
+  match resolveAux A rc P false verifyFuel root key with
+  | none => .err
+  | some (path, val) =>
+    match val with
+    | none => .err
+    | some v => if v = value then .ok (hasRight path) else .err
+
+/-- `VerifyRangeProof(root, first, nil, nil, proof)` — `verifyEmptyRangeProof`. -/
+def verifyEmpty [DecidableEq H] (A : HashAlg H) (rc : RCfg) (root : H) (first : Path) (P : PSet H) : RRes :=
+  match resolveAux A rc P true verifyFuel root first with
+  | none => .err
+  | some (path, val) => if val.isSome || hasRight path then .err else .ok false
+
 /-! ### The free term algebra (ideal hash) -/
 
 inductive HTerm where
